@@ -331,7 +331,13 @@ Section Funding.
     Definition cost0 : Z := base_size (zlen pre) (zlen outs) * fpb + sum_out_total outs.
     Definition payment0 : Z := sum_in_eff pre.
 
-    Definition create (w : wallet) : result := rounds 5 w [] payment0 cost0.
+    (* await ledger.reserve_outputs(pre-chosen inputs) comes first (repaired: they must not be picked again);
+       outpoints that are not rows of the wallet are not affected *)
+    Definition create (w : wallet) : result :=
+      rounds 5 (set_reserved true (map iid pre) w) [] payment0 cost0.
+
+    (* the behaviour before that repair, kept for the refutation lemma *)
+    Definition create_old (w : wallet) : result := rounds 5 w [] payment0 cost0.
   End Create.
 
   (* ---------------------------------------------------------------- what the theorems talk about *)
